@@ -140,7 +140,7 @@ def expected(c, out):
     return e
 
 
-HEADER = ("From Coq Require Import QArith List ZArith.\nFrom WSI Require Import Vqip Enc Decay.\n"
+HEADER = ("From Coq Require Import QArith List ZArith.\nFrom WSI Require Import Vqip Enc Pow.\n"
           "From WSI.gen Require Import GenCore.\nImport ListNotations.\nOpen Scope Q_scope.\n")
 
 
